@@ -314,6 +314,10 @@ def _synthetic(b):
     (np.ones / np.zeros of shape (1,) * ndim); anything else non-empty is real data."""
     try:
         arr = np.asarray(b)
+        if arr.ndim == 0:
+            # a 0-d meta necessarily has one element, and np.empty(()) leaves it
+            # uninitialised (it can even hold stale bytes of earlier results)
+            return True
         # one element, holding 0 or 1 (zeros_like / ones_like fake data); the
         # recording sources hold values >= 10
         if arr.dtype.kind == "f":
@@ -325,7 +329,7 @@ def _synthetic(b):
 
 def touch(b, *a, **k):
     if getattr(b, "size", 0) > 0:
-        TOUCH.append(("userfn", "touch" + ("-probe" if _synthetic(b) else ""), tuple(getattr(b, "shape", ()))))
+        TOUCH.append(("userfn", "touch" + ("-probe" if _synthetic(b) else ""), tuple(getattr(b, "shape", ())), repr(np.asarray(b).ravel()[:3].tolist()), type(b).__name__))
     return b
 
 
